@@ -654,10 +654,6 @@ Definition doc_is_public (i : vin) : bool :=
            then match v_exports i with Some (_, l) => l | None => false end
       else negb (name_private i) && negb (v_parent i && v_imported i)
   end.
-(* known gaps of the visibility table *)
-Definition gap_empty_all (i : vin) : bool :=          (* __all__ = []: declared but empty is treated as undeclared by is_public *)
-  v_parent i && v_pmod i && match v_exports i with Some (false, _) => true | _ => false end.
-
 (* ================= s-expression interface ================= *)
 Definition dec_deco (s : sexp) : option deco :=
   match s with
@@ -805,7 +801,7 @@ Definition run_C01 (s : sexp) : sexp :=
                                              is_wildcard_exposed i; is_public i]);
                          SList (map of_bool [doc_is_special i; doc_is_private i; doc_is_class_private i; doc_is_imported i;
                                              doc_is_exported i; doc_is_wildcard_exposed i; doc_is_public i]);
-                         of_bool (vin_consistent i); of_bool (gap_empty_all i)]
+                         of_bool (vin_consistent i)]
       | None => bad_input end
   | SList [SStr "bracket"; evs] =>
       (* the bracket checker of theorem C01_events_well_bracketed applied to a trace recorded from the implementation *)
